@@ -4,3 +4,5 @@ import Proofs.C03
 import Proofs.C01
 import Proofs.C14
 import Proofs.C07Icu
+import Proofs.C02
+import Proofs.C02Golden
